@@ -118,7 +118,7 @@ class SolveProperty(Property):
         else:
             for n in range(0, 4):
                 fws += list(gen.all_digraphs(n))
-            k = 2500
+            k = 12000
         for _ in range(k):
             fws.append(gen.random_framework(rng, self.max_n))
         # both sides of the hybrid threshold (16 / 32 / 64)
